@@ -106,6 +106,14 @@ def check(ctx):
         vi = val.idx if val is not None else None
         members = (vi[1] if vi[0] == 'JOIN' else {vi}) if vi is not None else set()
         ok_val = bool(members) and all(m[0] == 'SITE' or m == ('LOCALSITE',) for m in members)
+        mem_ = (vi[1] if vi[0] == 'JOIN' else {vi}) if vi is not None else set()
+        mixed = any(m[0] == 'MIX' and any(x == ('LOCALSITE',) for x in m[1:]) for m in mem_)
+        if mixed:
+            ctx.ob('R2', fcas, e['node'], False,
+                   f'group-local site numbers are turned into global ones by arithmetic (`{norm_text(e["stmt"].value) if e.get("stmt") is not None and hasattr(e["stmt"], "value") else "offset"}`): '
+                   f'that is correct only when all sites of a label are stored consecutively; with interleaved labels atoms are assigned to other sites')
+            flagged = True
+            continue
         if not nos:
             ctx.ob('R5', fcas, e['node'], False, 'state array is not initialised with the no-site marker')
         elif idx is not None and idx.idx == ('LOCALSITE',):
@@ -121,6 +129,12 @@ def check(ctx):
                 # only correct when no key is in use (all sites searched at once)
                 ctx.ob('R2', fcas, e['node'], True, 'local = global numbering (single group)')
 
+    for n_ in ast.walk(fcas.node):
+        if isinstance(n_, ast.Assign) and len(n_.targets) == 1 and norm_text(n_.targets[0]) == 'key' and isinstance(n_.value, ast.BinOp) \
+                and isinstance(n_.value.op, ast.Add) and 'arange' in norm_text(n_.value):
+            ctx.ob('R2', fcas, n_, False, 'the local -> global site lookup is built as offset + arange(count): it assumes that the sites of a label are '
+                                          'stored consecutively; with interleaved labels atoms are assigned to other sites')
+            flagged = True
     # ---- R3 sibling calls + radius product
     calls = [e for e in it.events if e['tag'] == 'call' and e['callee'] == CAS and e['where'] is not None and e['where'].qualname == FT]
     seen = set()
